@@ -17,6 +17,8 @@ EXPLANATION = ('PORT-TYPECHECK (25 units), DRV-FPENV/DRV-RESET on K1, PORT-ROUND
 
 TECHNIQUE += '; byte-accurate abstract evaluation of the byte-order branches on a big-endian cross parse (s390x)'
 
+EXPLANATION += ' DS-ITEM by evaluation on K1.'
+
 
 def run(ctx, R):
     F1 = portable.rule_typecheck(ctx, R, 'K1')
